@@ -181,3 +181,99 @@ pub fn client_auth_none() -> ClientAuthInfo {
 pub fn credential_uuid(c: &Credential) -> Uuid {
     c.uuid
 }
+
+/// Key object access (the `server::keys` module is crate-private).
+pub mod keys {
+    use crate::prelude::*;
+    use crate::server::keys::KeyProvidersTransaction;
+    use crate::value::{KeyStatus, KeyUsage};
+    use compact_jwt::jwe::JweBuilder;
+    use compact_jwt::jws::JwsBuilder;
+    use compact_jwt::{JweCompact, JwsCompact};
+    use std::str::FromStr;
+
+    fn handle<'a, T: QueryServerTransaction<'a>>(
+        txn: &T,
+        uuid: Uuid,
+    ) -> Result<std::sync::Arc<crate::server::keys::KeyObject>, OperationError> {
+        txn.get_key_providers()
+            .get_key_object_handle(uuid)
+            .ok_or(OperationError::KP0031KeyObjectNotFound)
+    }
+
+    /// Sign `payload` with the ES256 key of key object `uuid` that the server selects at `ct`.
+    pub fn es256_sign<'a, T: QueryServerTransaction<'a>>(
+        txn: &T,
+        uuid: Uuid,
+        payload: Vec<u8>,
+        ct: Duration,
+    ) -> Result<String, OperationError> {
+        let jws = JwsBuilder::from(payload).build();
+        handle(txn, uuid)?.jws_es256_sign(&jws, ct).map(|c| c.to_string())
+    }
+
+    pub fn hs256_sign<'a, T: QueryServerTransaction<'a>>(
+        txn: &T,
+        uuid: Uuid,
+        payload: Vec<u8>,
+        ct: Duration,
+    ) -> Result<String, OperationError> {
+        let jws = JwsBuilder::from(payload).build();
+        handle(txn, uuid)?.jws_hs256_sign(&jws, ct).map(|c| c.to_string())
+    }
+
+    /// Verify a compact JWS with key object `uuid`; returns the payload.
+    pub fn jws_verify<'a, T: QueryServerTransaction<'a>>(
+        txn: &T,
+        uuid: Uuid,
+        token: &str,
+    ) -> Result<Vec<u8>, OperationError> {
+        let c = JwsCompact::from_str(token).map_err(|_| OperationError::InvalidValueState)?;
+        handle(txn, uuid)?.jws_verify(&c).map(|j| j.payload().to_vec())
+    }
+
+    pub fn jwe_encrypt<'a, T: QueryServerTransaction<'a>>(
+        txn: &T,
+        uuid: Uuid,
+        payload: Vec<u8>,
+        ct: Duration,
+    ) -> Result<String, OperationError> {
+        let jwe = JweBuilder::from(payload).build();
+        handle(txn, uuid)?.jwe_a128gcm_encrypt(&jwe, ct).map(|c| c.to_string())
+    }
+
+    pub fn jwe_decrypt<'a, T: QueryServerTransaction<'a>>(
+        txn: &T,
+        uuid: Uuid,
+        token: &str,
+    ) -> Result<Vec<u8>, OperationError> {
+        let c = JweCompact::from_str(token).map_err(|_| OperationError::InvalidValueState)?;
+        handle(txn, uuid)?.jwe_decrypt(&c).map(|j| j.payload().to_vec())
+    }
+
+    /// Stored key records of a key object entry: (kid, usage, valid_from, status).
+    pub fn stored_keys(e: &EntrySealedCommitted) -> Vec<(String, String, u64, String)> {
+        e.get_ava_set(Attribute::KeyInternalData)
+            .and_then(|vs| vs.as_key_internal_map())
+            .map(|m| {
+                m.iter()
+                    .map(|(k, d)| {
+                        let usage = match d.usage {
+                            KeyUsage::JwsEs256 => "es256",
+                            KeyUsage::JwsHs256 => "hs256",
+                            KeyUsage::JwsRs256 => "rs256",
+                            KeyUsage::JweA128GCM => "a128gcm",
+                            KeyUsage::HkdfS256 => "hkdf",
+                        };
+                        let status = match d.status {
+                            KeyStatus::Valid => "valid",
+                            KeyStatus::Retained => "retained",
+                            KeyStatus::Revoked => "revoked",
+                        };
+                        (k.as_str().to_string(), usage.to_string(), d.valid_from, status.to_string())
+                    })
+                    .collect()
+            })
+            .unwrap_or_default()
+    }
+}
